@@ -177,7 +177,24 @@ func c16Combine(c *core.Ctx, n, nilMask, pre int, order []int, custom bool) {
 			others[i-1] = ins[i].ctx
 		}
 	}
-	res := bigbuff.CombineContext(ins[0].ctx, others...)
+	// a nil primary stands for Background: it carries no values (the others' values are never the result's) and
+	// cannot be cancelled (the steps that would cancel it are no-ops)
+	nilPrimary := !custom && (n+nilMask+pre+len(order))%3 == 0 && pre&1 == 0
+	primary := ins[0].ctx
+	if nilPrimary {
+		primary = nil
+		ins[0].cancel = func() {}
+	}
+	res := bigbuff.CombineContext(primary, others...)
+	if nilPrimary {
+		desc += " nil-primary"
+		for i := 0; i <= n; i++ {
+			if v := res.Value(ctxKey(fmt.Sprintf("k%d", i))); v != nil {
+				c.Violate("combine-foreign-values", "nil primary: the result exposes value %v of key k%d, which belongs to one of the others (or to nobody); %s", v, i, desc)
+				break
+			}
+		}
+	}
 	// the caller reuses its slice for a second call: the positions it filled get fresh contexts, the positions it left
 	// nil it leaves alone. The second result has nothing to do with the first call's others: cancelling those (the
 	// steps below do) must not cancel it.
@@ -207,7 +224,7 @@ func c16Combine(c *core.Ctx, n, nilMask, pre int, order []int, custom bool) {
 			}
 		}
 	}()
-	if res.Value(ctxKey("k0")) != 0 {
+	if !nilPrimary && res.Value(ctxKey("k0")) != 0 {
 		c.Violate("combine-values", "result does not carry the primary's value; %s", desc)
 	}
 	expect := pre != 0
@@ -217,8 +234,17 @@ func c16Combine(c *core.Ctx, n, nilMask, pre int, order []int, custom bool) {
 	if !expect && res.Err() != nil {
 		c.Violate("combine-cancelled-early", "no input is cancelled but the result is cancelled at construction; %s", desc)
 	}
+	anyCancelled := expect
 	for step, i := range order {
 		ins[i].cancel()
+		if nilPrimary && i == 0 {
+			if !anyCancelled && res.Err() != nil {
+				c.Violate("combine-cancelled-early", "nil primary, no other cancelled, but the result is; %s", desc)
+				return
+			}
+			continue
+		}
+		anyCancelled = true
 		if !awaitCtx(res) {
 			c.Violate("combine-not-cancelled", "input %d was cancelled (step %d) but the result is still live; %s", i, step, desc)
 			return
